@@ -265,7 +265,7 @@ SEEDS["C06_dtype_name_cache"] = ("C06", [(A, """        if hasattr(obj.dtype, "t
         elif hasattr(obj.dtype, "type") and hasattr(obj.dtype.type, "__name__"):
             # JAX, numpy
             dtype = obj.dtype.type.__name__
-            _dtype_name_cache[type(obj.dtype)] = dtype"""), (A, "_any_dtype = object()", "_any_dtype = object()\n_dtype_name_cache = {}")], "C06.2")
+            _dtype_name_cache[type(obj.dtype)] = dtype"""), (A, "_not_made = object()", "_not_made = object()\n_dtype_name_cache = {}")], "C06.2")
 SEEDS["C06_lru_cache_on_check_dims"] = ("C06", [(A, """def _dtype_is_numpy_struct_array(dtype):""", """@ft.lru_cache(maxsize=None)
 def _dtype_is_numpy_struct_array(dtype):""")], "C06.4")
 SEEDS["C06_class_level_last_error"] = ("C06", [(A, """        if check == "":
@@ -274,7 +274,7 @@ SEEDS["C06_class_level_last_error"] = ("C06", [(A, """        if check == "":
         if check == "":
             return check
         else:""")], "C06.2")
-SEEDS["C06_shared_scratch_dict_passed"] = ("C06", [(A, "check = cls._check_shape(obj, single_memo, variadic_memo, arg_memo)", "check = cls._check_shape(obj, single_memo, _scratch_variadic, arg_memo)"), (A, "_any_dtype = object()", "_any_dtype = object()\n_scratch_variadic = {}")], "C06.3")
+SEEDS["C06_shared_scratch_dict_passed"] = ("C06", [(A, "check = cls._check_shape(obj, single_memo, variadic_memo, arg_memo)", "check = cls._check_shape(obj, single_memo, _scratch_variadic, arg_memo)"), (A, "_not_made = object()", "_not_made = object()\n_scratch_variadic = {}")], "C06.3")
 TWINS["C06_twin_local_cache"] = ("C06", [(A, """        if hasattr(obj.dtype, "type") and hasattr(obj.dtype.type, "__name__"):
             # JAX, numpy
             dtype = obj.dtype.type.__name__""", """        scratch = {}
@@ -1240,7 +1240,7 @@ SEEDS["C01_new_kind_unhandled"] = ("C01", [(A, """                if variadic:
                     elem = _anonymous_dim""", """                if variadic:
                     elem = _anonymous_variadic_dim
                 else:
-                    elem = _AnyDim()"""), (A, "_anonymous_dim = object()", "_anonymous_dim = object()\n\n\nclass _AnyDim:\n    broadcastable = False\n")], "C01.1")
+                    elem = _AnyDim()"""), (A, "_not_made = object()", "_not_made = object()\n\n\nclass _AnyDim:\n    broadcastable = False\n")], "C01.1")
 SEEDS["C01_broadcast_arm_after_fixed"] = ("C01", [(A, """        elif cls_dim.broadcastable and obj_size == 1:
             pass
         elif type(cls_dim) is _FixedDim:
@@ -1456,3 +1456,8 @@ SEEDS["C15_scalar_rank_not_required"] = ("C15", [(A, """    for dim in dims:
 SEEDS["C15_scalar_alias_wrong_shape"] = ("C15", [(I, '            return Shaped[jax.Array, ""]', '            return Shaped[jax.Array, "..."]')], "C15.4")
 SEEDS["C15_prngkey_without_old_style"] = ("C15", [(I, '            return Union[Key[jax.Array, ""], UInt32[jax.Array, "2"]]', '            return Key[jax.Array, ""]')], "C15.4")
 TWINS["C15_twin_comment"] = ("C15", [(A, "        dims = dims + array_type.dims\n", "        dims = dims + array_type.dims  # outer first\n")])
+SEEDS["C20_sentinel_bare_object"] = ("C20", [(A, '_any_dtype = _Sentinel("_any_dtype")', "_any_dtype = object()")], "C20.5")
+SEEDS["C20_sentinel_wrong_name"] = ("C20", [(A, '_anonymous_dim = _Sentinel("_anonymous_dim")', '_anonymous_dim = _Sentinel("_anonymous_variadic_dim")')], "C20.5")
+SEEDS["C20_sentinel_no_deepcopy"] = ("C20", [(A, """    def __deepcopy__(self, memo):
+        return self
+""", "")], "C20.5")
